@@ -99,9 +99,15 @@ def gen(rng, tier):
         if node in web:
             break
         here = R.origin_of(cur)
-        kind = rng.choice(["cross", "cross", "variant", "same_path", "rel", "back"])
+        kind = rng.choice(["cross", "cross", "variant", "same_path", "rel", "back", "netpath"])
         path = rng.choice(["/p1", "/d/p2", "/p3?x=1"])
-        if kind == "cross":
+        if kind == "netpath" and entry != "pool":
+            # network-path reference: keeps the scheme, names another authority (it begins with a slash and is no path)
+            same_scheme = [o for o in origins if o != here and o.split("://")[0] == here.split("://")[0]]
+            loc = ("//" + rng.choice(same_scheme).split("://")[1] + path) if same_scheme else path
+        elif kind == "netpath":
+            loc = path
+        elif kind == "cross":
             loc = rng.choice([o for o in origins if o != here]) + path
         elif kind == "variant":
             loc = variant_of(here, rng) + path
